@@ -2,7 +2,7 @@
    Model: Model/Flags.v (status byte handling of fs.rs).  The link "every structural device write passes
    set_dirty_flag(true)" is checked on the implementation by the correspondence check (tools/props/c12.py). *)
 From Coq Require Import NArith List.
-From FatVerif Require Import Model.Base Model.Flags Proofs.FlagsProofs.
+From FatVerif Require Import Model.Base Model.Flags Spec.Image Spec.Abs Spec.Regions Proofs.FlagsProofs Proofs.RegionsProofs.
 Import ListNotations.
 Open Scope N_scope.
 
@@ -28,7 +28,15 @@ Theorem C12_mount_bits_kept : forall b evs, b < 256 ->
   (N.odd (b / 2) = true -> N.odd (disk_byte s / 2) = true).
 Proof. exact mount_bits_kept. Qed.
 
+(* the boundary check reads "the status byte" and "structural write" off the extracted classifier of Spec/Regions.v:
+   a byte is classified as the status byte exactly when it is the byte at 0x25 (FAT12/16) / 0x41 (FAT32) *)
+Theorem C12_classify_status_iff : forall g im m off, geom_sane g -> g_status_off g < g_reserved g * g_bps g ->
+  g_reserved g * g_bps g <= g_volume_bytes g ->
+  (classify g im m off = RStatus <-> off = g_status_off g).
+Proof. exact classify_status_iff. Qed.
+
 Print Assumptions C12_dirty_after_structural.
 Print Assumptions C12_reachable_inv.
 Print Assumptions C12_unmount_restores.
 Print Assumptions C12_mount_bits_kept.
+Print Assumptions C12_classify_status_iff.
